@@ -184,6 +184,62 @@ func main() {
 		}
 		add(r, "fuzz", sizeTag(g.W, g.H))
 	}
+	// directed: SGR parameter lists cut at every length around the extended colours
+	// (38 / 48 / 58, selector omitted/0/2/5/unknown, ';' and ':' and mixed syntax, as the
+	// whole list and as its tail), a glyph after every few so that the pen shows in the grid
+	trunc := termhx.SgrTruncations()
+	cfg.Rand.Shuffle(len(trunc), func(i, j int) { trunc[i], trunc[j] = trunc[j], trunc[i] })
+	const perHist = 24
+	for lo := 0; lo < len(trunc); lo += perHist {
+		hi := lo + perHist
+		if hi > len(trunc) {
+			hi = len(trunc)
+		}
+		g := &termhx.Gen{R: cfg.Rand}
+		g.W, g.H = g.Size()
+		r := &termhx.Runner{FullEvery: 9}
+		r.Start(g.W, g.H)
+		for k, ps := range trunc[lo:hi] {
+			b := "\x1b[" + ps + "m"
+			if k%4 == 3 {
+				b += "x"
+			}
+			r.FeedBytes([]byte(b), 1, cfg.Rand)
+		}
+		add(r, "sgr-truncated", sizeTag(g.W, g.H))
+	}
+	// hyperlinks: OSC 8 ; params ; URI with targets over an alphabet that contains the
+	// field separator ';' and the parameter separators ':' '=', text printed under the
+	// link, links closed and replaced, a resize in between
+	nLink := 40
+	if cfg.Thorough() {
+		nLink = 400
+	}
+	for i := 0; i < nLink; i++ {
+		g := &termhx.Gen{R: cfg.Rand}
+		g.W, g.H = g.Size()
+		r := &termhx.Runner{FullEvery: 3}
+		r.Start(g.W, g.H)
+		for k := 0; k < 3+cfg.Rand.Intn(6) && !r.Dead; k++ {
+			ps, uri := g.Link()
+			if cfg.Rand.Intn(4) == 0 {
+				ps, uri = "", ""
+			}
+			b := "\x1b]8;" + ps + ";" + uri + g.Pick("\a", "\x1b\\") + g.Text()
+			switch cfg.Rand.Intn(5) {
+			case 0:
+				b += g.Sgr()
+			case 1:
+				b += g.Csi()
+			}
+			r.FeedBytes([]byte(b), 1, cfg.Rand)
+			if cfg.Rand.Intn(8) == 0 {
+				g.W, g.H = g.Size()
+				r.Resize(g.W, g.H)
+			}
+		}
+		add(r, "hyperlink", sizeTag(g.W, g.H))
+	}
 	// event storms with sparse drains
 	for i := 0; i < nStall; i++ {
 		g := &termhx.Gen{R: cfg.Rand}
@@ -203,6 +259,6 @@ func main() {
 		r.FeedBytes(b, []float64{0, 0.3, 0.7, 1}[cfg.Rand.Intn(4)], cfg.Rand)
 		add(r, "events", sizeTag(g.W, g.H))
 	}
-	cfg.Write("C05", "histories from New(): first resize to a size from 1x1 upward, then chunks of grammar-generated child output (printable narrow/wide/zero-width text, C0, ESC, CSI with parameters omitted/0/1/size-1/size/size+1/huge/overflowing, SGR, OSC/APC/DCS strings) or raw fuzzed bytes, parsed by the real ansi.Parser and fed one sequence at a time through the unmodified update path, with resizes between chunks and a random event-drain schedule; after every step the observation (outcome, size, cursor, deferred-wrap flag, margins, events pending, length of every row of both grids) and every 9th step plus the last one the complete state (both grids, pen, modes, tab stops, charsets, saved cursors); non-trivial = at least three different control functions in the history",
+	cfg.Write("C05", "histories from New(): first resize to a size from 1x1 upward, then chunks of grammar-generated child output (printable narrow/wide/zero-width text, C0, ESC, CSI with parameters omitted/0/1/size-1/size/size+1/huge/overflowing, SGR, OSC/APC/DCS strings) or raw fuzzed bytes, plus directed histories: SGR lists cut at every length around the extended colours 38/48/58 (selector omitted/0/2/5/unknown, semicolon, colon and mixed syntax, at the start and at the tail of the list) and OSC 8 hyperlinks whose targets and parameters are drawn from an alphabet containing \";\", \":\" and \"=\", parsed by the real ansi.Parser and fed one sequence at a time through the unmodified update path, with resizes between chunks and a random event-drain schedule; after every step the observation (outcome, size, cursor, deferred-wrap flag, margins, events pending, length of every row of both grids) and every 9th step plus the last one the complete state (both grids, pen, modes, tab stops, charsets, saved cursors); non-trivial = at least three different control functions in the history",
 		[]*hx.Stream{s, ds}, map[string]interface{}{"outcomes": outcomes}, direct)
 }
